@@ -921,7 +921,12 @@ fn lhs_basic(p: &mut Parser) -> Result<CompletedMarker, CompletedMarker> {
 	} else if p.at(T![import]) || p.at(T![importstr]) || p.at(T![importbin]) {
 		let m = p.start();
 		p.bump();
-		text(p);
+		if Text::can_cast(p.current()) {
+			text(p);
+		} else {
+			let _e = p.expected_syntax_name("string literal");
+			p.error_with_no_skip();
+		}
 		m.complete(p, EXPR_IMPORT)
 	} else if let Some(op) = UnaryOperatorKind::cast(p.current()) {
 		let ((), right_binding_power) = op.binding_power();
